@@ -351,6 +351,12 @@ def tasks(tier):
         ts.append(Task(f'protocol.n{n}', P8.t_protocol(n), extra=dict(x, bounded=f'{n} resting orders + one reaction order'), overrides=dict(ov),
                        max_paths=200000))
     ts.append(Task('fixed-jump', P7.t_fixed_jump, extra=dict(x, spec_mod=P7.SPEC), overrides=dict(ov)))
+    # "at exactly its own price and quantity": what a fill of (qty, price) does to the position is the contract of
+    # Position._on_executed_order (shared with C03, every fill kind incl. the flip); the price a hook sees while the order executes is
+    # the one published by _update_all_routes_a_partial_candle (shared with C07)
+    import props.C03 as P3
+    ts += [t for t in P3.tasks(tier) if t.id.startswith('fill.')]
+    ts += [t for t in P7.tasks(tier) if t.id in ('partial.5m', 'partial.1h')]
     import props.C01 as P1
     ts.append(Task('chunk-clock.reaction', (lambda h: P1.t_chunk_clock(h, True)), extra=dict(x), overrides=dict(ov), max_paths=20000))
     ts.append(Task('protocol.chunk', P8.t_protocol_chunk(2), extra=dict(x, bounded='chunk of 2 minutes, one resting order then two candidates after each fill'),
